@@ -596,6 +596,51 @@ func (u *universe) compare(g *symboldg.SymbolGraph, m *model) (out []mismatch) {
 					add("parents", "Parents(%s) = %s, model says %s", name, setString(got), setString(wantParents))
 				}
 			}
+			// filtered views: by node kind, by predicate, and by both at once - each filter narrows the unfiltered answer
+			for _, kinds := range [][]common.SymKind{nil, {common.SymKindStruct}, {common.SymKindStruct, common.SymKindEnum, common.SymKindAlias, common.SymKindField, common.SymKindBuiltin, common.SymKindSpecialBuiltin}} {
+				for _, withPred := range []bool{false, true} {
+					if kinds == nil && !withPred {
+						continue
+					}
+					pred := func(n *symboldg.SymbolNode) bool { return u.baseOfKey(n.Id) != "K0" }
+					keep := func(x string) bool {
+						if withPred && x == "K0" {
+							return false
+						}
+						if kinds == nil {
+							return true
+						}
+						for _, k := range kinds {
+							if m.nodes[x].kind == k {
+								return true
+							}
+						}
+						return false
+					}
+					beh := &symboldg.TraversalBehavior{Filtering: symboldg.TraversalFilter{NodeKinds: kinds}}
+					if withPred {
+						beh.Filtering.FilterFunc = pred
+					}
+					wc, wp := map[string]bool{}, map[string]bool{}
+					for x := range wantChildren {
+						if keep(x) {
+							wc[x] = true
+						}
+					}
+					for x := range wantParents {
+						if keep(x) {
+							wp[x] = true
+						}
+					}
+					label := fmt.Sprintf("kinds=%d predicate=%v", len(kinds), withPred)
+					if got := nodeSet(g.Children(node, beh), u); !sameSet(got, wc) {
+						add("filtered-children", "Children(%s, %s) = %s, the filtered model says %s", name, label, setString(got), setString(wc))
+					}
+					if got := nodeSet(g.Parents(node, beh), u); !sameSet(got, wp) {
+						add("filtered-parents", "Parents(%s, %s) = %s, the filtered model says %s", name, label, setString(got), setString(wp))
+					}
+				}
+			}
 			if got := nodeSet(g.Descendants(node, nil), u); !sameSet(got, m.reachable(name)) {
 				add("descendants", "Descendants(%s) = %s, model says %s", name, setString(got), setString(m.reachable(name)))
 			}
